@@ -26,6 +26,9 @@ def tasks(tier):
     t += [_tm.T("typeorder/alias_origin", mro_c.t_alias_origin), _tm.T("typeorder/alias_argwise", mro_c.t_alias_argwise), _tm.T("typeorder/class_fragment", mro_c.t_class_fragment), _tm.T("Order.merge", mro_c.t_merge)]
     t += [_tm.T("lemma.levels_monotone", __import__("contracts.sort_c", fromlist=["t_levels_monotone"]).t_levels_monotone)]
     t += _gen.entry_tasks(tier)
+    from . import _core
+
+    t += _core.next_resolve_tasks()
     from contracts import norm_c
 
     t += [_tm.T(f"TypeNormalizer[{f}]", norm_c.t_normalize(f)) for f in ("bare_type", "Any", "missing", "type_alias", "string[bare_type]", "string[Any]", "Annotated[bare_type]", "Annotated[Any]")]
